@@ -342,6 +342,8 @@ package bitmap
 // select checkpoint. c below is the number of low bits masked off the current word (only the
 // checkpoint word is masked).
 //@ func Select32 returns (a, b)
+//@   witness-gen selectIndex = IndexSelect32(words)
+//@   witness-gen i = func() int32 { n := int32(0); for _, w := range words { for ; w != 0; w &= w - 1 { n++ } }; if n == 0 { return 0 }; return int32(r.Intn(int(n))) }()
 //@   requires len(words) < 1<<25
 //@   requires isSelIndex(words, selectIndex)
 //@   requires 0 <= i && i < R(words, len(words))
@@ -369,6 +371,9 @@ package bitmap
 // Select32R64: (a, b) = (position of the i-th 1-bit, position of the next 1-bit or 64*len).
 // "a is the i-th 1-bit" is stated as: bit a is 1 and exactly i 1-bits precede it.
 //@ func Select32R64 returns (a, b)
+//@   witness-gen selectIndex = IndexSelect32(words)
+//@   witness-gen rankIndex = IndexRank64(words, true)
+//@   witness-gen i = func() int32 { n := int32(0); for _, w := range words { for ; w != 0; w &= w - 1 { n++ } }; if n == 0 { return 0 }; return int32(r.Intn(int(n))) }()
 //@   requires len(words) < 1<<25
 //@   requires isSelIndex(words, selectIndex) && isRank64Index(words, rankIndex, true)
 //@   requires 0 <= i && i < R(words, len(words))
